@@ -468,3 +468,16 @@ def confirm_la_model(ev, model_text):
         if truth == pol:        # the clause literal is true under the model: not a counter-model
             return False
     return True
+
+
+def corpus_scripts(pid):
+    """minimised / recorded failing scripts kept as regression inputs (run first)"""
+    import glob
+    import re
+    out = []
+    for f in sorted(glob.glob(os.path.join(vlib.VERIF, "corpus", pid, "*.smt2"))):
+        text = open(f).read()
+        m = re.search(r"\(set-logic\s+([A-Z_]+)\)", text)
+        out.append(dict(text=text, logic=m.group(1) if m else "QF_LRA", engine="corpus", big=None, features=[],
+                        family="corpus:" + os.path.basename(f)))
+    return out
